@@ -40,11 +40,11 @@ var (
 
 var epoch = time.Date(2025, 1, 1, 0, 0, 0, 0, time.UTC)
 
-func Now() Time                { return epoch.Add(Duration(vsched.Clock())) }
-func Since(t Time) Duration    { return Now().Sub(t) }
-func Until(t Time) Duration    { return t.Sub(Now()) }
-func Unix(s, ns int64) Time    { return time.Unix(s, ns) }
-func UnixMilli(ms int64) Time  { return time.UnixMilli(ms) }
+func Now() Time                                { return epoch.Add(Duration(vsched.Clock())) }
+func Since(t Time) Duration                    { return Now().Sub(t) }
+func Until(t Time) Duration                    { return t.Sub(Now()) }
+func Unix(s, ns int64) Time                    { return time.Unix(s, ns) }
+func UnixMilli(ms int64) Time                  { return time.UnixMilli(ms) }
 func ParseDuration(s string) (Duration, error) { return time.ParseDuration(s) }
 func Date(y int, m Month, d, h, mi, s, ns int, loc *Location) Time {
 	return time.Date(y, m, d, h, mi, s, ns, loc)
